@@ -16,6 +16,7 @@ type condPol struct {
 type Path struct {
 	Blocks []*ssa.BasicBlock
 	Conds  []condPol
+	Raw    []condPol // the conditions as branched on, before boolean locals were resolved (resolvePhis)
 }
 
 func (p *Path) Last() *ssa.BasicBlock { return p.Blocks[len(p.Blocks)-1] }
@@ -76,7 +77,9 @@ func enumPaths(fn *ssa.Function, from *ssa.BasicBlock, max int) (paths []Path, o
 				return
 			}
 			cp := Path{Blocks: append([]*ssa.BasicBlock(nil), cur.Blocks...), Conds: append([]condPol(nil), cur.Conds...)}
-			paths = append(paths, cp)
+			if cp.resolvePhis() {
+				paths = append(paths, cp)
+			}
 			return
 		}
 		var ifi *ssa.If
@@ -193,9 +196,10 @@ type APath struct {
 	Ret   *ssa.Return
 }
 
+// has: the path carries an atom op (with the given polarity) about a typed access path ending in suffix.
 func (a *APath) has(op, suffix string, neg bool) bool {
 	for _, x := range a.Atoms {
-		if x.Op == op && x.Neg == neg && (hasSuffixPath(x.A, suffix) || x.B != "" && hasSuffixPath(x.B, suffix)) {
+		if x.Op == op && x.Neg == neg && (hasSuffixPath(x.TA, suffix) || x.TB != "" && hasSuffixPath(x.TB, suffix)) {
 			return true
 		}
 	}
@@ -310,7 +314,7 @@ func (fx *Facts) atomPathsTo(target *ssa.BasicBlock, max int) ([]APath, bool) {
 				return
 			}
 			p := Path{Blocks: append([]*ssa.BasicBlock(nil), cur.Blocks...), Conds: append([]condPol(nil), cur.Conds...)}
-			if p.feasible() {
+			if p.resolvePhis() && p.feasible() {
 				ap := APath{Path: p}
 				for _, c := range p.Conds {
 					ap.Atoms = append(ap.Atoms, fx.atomOf(c.Cond, c.Pol))
@@ -338,4 +342,75 @@ func (fx *Facts) atomPathsTo(target *ssa.BasicBlock, max int) ([]APath, bool) {
 	}
 	walk(fn.Blocks[0])
 	return out, ok
+}
+
+// resolvePhis rewrites conditions that are boolean locals - a (negated) phi - to the value that arrives on this
+// path: a constant decides feasibility (false = the path contradicts the flag), any other value takes the
+// phi's place as the condition (`tooShort := false; if min > 0 { tooShort = len(v) < min }; if tooShort {...}`).
+func (p *Path) resolvePhis() bool {
+	p.Raw = append([]condPol(nil), p.Conds...)
+	for i := range p.Conds {
+		for depth := 0; depth < 8; depth++ {
+			v := p.Conds[i].Cond
+			pol := p.Conds[i].Pol
+			for {
+				u, ok := v.(*ssa.UnOp)
+				if !ok || u.Op != token.NOT {
+					break
+				}
+				v = u.X
+				pol = !pol
+			}
+			phi, ok := v.(*ssa.Phi)
+			if !ok {
+				break
+			}
+			pb := phi.Block()
+			idx := -1
+			for bi, b := range p.Blocks {
+				if b == pb {
+					idx = bi
+					break
+				}
+			}
+			if idx <= 0 {
+				break
+			}
+			var edge ssa.Value
+			for k, pred := range pb.Preds {
+				if pred == p.Blocks[idx-1] {
+					edge = phi.Edges[k]
+				}
+			}
+			if edge == nil {
+				break
+			}
+			if c, isC := edge.(*ssa.Const); isC {
+				if c.Value == nil {
+					break
+				}
+				s := c.Value.ExactString()
+				if s != "true" && s != "false" {
+					break
+				}
+				if (s == "true") != pol {
+					return false
+				}
+				// the condition is settled by the path: make it a tautology that carries no atom
+				p.Conds[i] = condPol{edge, pol}
+				break
+			}
+			p.Conds[i] = condPol{edge, pol}
+		}
+	}
+	// drop settled constant conditions
+	out := p.Conds[:0]
+	for _, c := range p.Conds {
+		if _, isC := c.Cond.(*ssa.Const); isC {
+			continue
+		}
+		out = append(out, c)
+	}
+	p.Conds = out
+	return true
 }
